@@ -105,7 +105,9 @@ where
                     .periodic_images(position, 3, false)
                     .map(|p| self.shape.transform(&p))
                 {
-                    sum += shape1.energy(&shape2);
+                    // Every pair with a periodic image is found from both of its ends, so each
+                    // contributes half of the energy of the pair to the cell.
+                    sum += 0.5 * shape1.energy(&shape2);
                 }
             }
         }
